@@ -266,6 +266,10 @@ func (e *Exec) frameCheck(cur State, base State, env *cenv, assigns []Expr, fn *
 			continue
 		}
 		a := c.Fresh("fa", BV(64))
+		if limit == e.brk0 {
+			// an address below the entry frontier cannot lie in anything allocated since
+			e.registerInput(a, c.Const(64, 1))
+		}
 		conds := []*Term{c.Ult(a, limit)}
 		for _, s := range spans {
 			if s.h == h {
@@ -334,6 +338,15 @@ func (e *Exec) freshVal(T types.Type, what string) Val {
 // applyContract: assert requires, havoc assigns, assume ensures (DESIGN Appendix B, Call).
 func (e *Exec) applyContract(fr *Frame, st State, fn *ssa.Function, ct *FuncContract, args []Val, pos token.Pos) []Outcome {
 	pre := st
+	for _, a := range args {
+		for _, t := range a {
+			if t.S.K == KBV && t.S.W == 64 {
+				if r := addrRoot(t); e.regions[r] != nil && e.regions[r].fresh {
+					e.escaped[r] = true
+				}
+			}
+		}
+	}
 	env := e.contractEnv(fn, ct, args, pre, pre, pre.brk)
 	e.evalLets(env, ct)
 	short := shortFn(fn.String())
